@@ -25,7 +25,9 @@ VARIANTS = ("omp",)
 CASE_TIMEOUT = 1200
 RULE = ("kind workflow: crystal x primitive axes x NAC: `phonopy -d` (displaced supercells vs library), `phonopy -f` on synthesised vasprun.xml (FORCE_SETS vs model forces), "
         "`phonopy-load` / `phonopy` run modes mesh, thermal properties, DOS, PDOS, band, q-points, --writefc/--readfc, --nac, each output file vs library results; option route vs "
-        "configuration-file route byte-identical outputs; final phonopy.yaml reloaded; "
+        "configuration-file route byte-identical outputs (mesh, thermal properties, band, group velocities, mesh symmetry off, DOS, thermal displacements, q-points with dynamical matrices); "
+        "final phonopy.yaml reloaded; further phonopy-load run modes vs library: --gv (values inside degenerate groups compared as sets per direction), mesh/band --eigvecs "
+        "(projectors onto degenerate subspaces), --td, --tdm, --hdf5, --band-connection (per-q set vs the unconnected path; order where gaps > 1e-3), --writedm, tetrahedron DOS; "
         "kind settings: every row of the option<->tag table of doc/command-options.md (parsed at run time) x both commands: Settings via option == Settings via conf tag and != default; "
         "non-trivial = output file compared / settings differ from default; distinct = (workflow step) / (table row, command)")
 ASSUMPTIONS = [
@@ -56,6 +58,9 @@ VALUES = {
 CONTEXT = {"QPOINTS_FORMAT": (["--qpoints", "0 0 0 1/2 0 0"], "QPOINTS = 0 0 0 1/2 0 0"), "BAND_FORMAT": (["--band", "0 0 0 1/2 0 0"], "BAND = 0 0 0 1/2 0 0"),
            "MESH_FORMAT": (["--mesh", "2", "2", "2"], "MESH = 2 2 2"), "BAND_LABELS": (["--band", "0 0 0 1/2 0 0"], "BAND = 0 0 0 1/2 0 0"),
            "BAND_POINTS": (["--band", "0 0 0 1/2 0 0"], "BAND = 0 0 0 1/2 0 0"), "BAND_CONNECTION": (["--band", "0 0 0 1/2 0 0"], "BAND = 0 0 0 1/2 0 0")}
+
+
+ROUTE_FILES = ("mesh.yaml", "thermal_properties.yaml", "band.yaml", "total_dos.dat", "thermal_displacements.yaml", "qpoints.yaml")
 
 
 def gen_cases(tier, seed):
@@ -462,13 +467,209 @@ def run_case(c):
                     cmp_arr("frequencies (NAC)", [[b["frequency"] for b in p_["band"]] for p_ in y["phonon"]], tw.get_qpoints_dict()["frequencies"], decimals_in(txt, "frequency:"), "nac:" + cmd, "qpoints.yaml")
                     n_files += 1
                     keys.append("wf|%s|nac|%s" % (c["crystal"]["name"], cmd))
+        # ---- further run modes of phonopy-load (group velocities, eigenvectors, thermal displacements, hdf5, band connection, dynamical matrices,
+        #      tetrahedron DOS); quantities that are only defined up to a rotation inside a degenerate subspace are compared as such
+        cur["cmd"] = "phonopy-load"
+        pre = ["--fc-calc", "traditional"]
+
+        def rm(*fns):
+            for fn in fns:
+                if os.path.exists(os.path.join(tmp, fn)):
+                    os.remove(os.path.join(tmp, fn))
+
+        def groups_of(fr):
+            g, out = [0], []
+            for j in range(1, len(fr)):
+                if abs(fr[j] - fr[j - 1]) < 1e-4:
+                    g.append(j)
+                else:
+                    out.append(g)
+                    g = [j]
+            out.append(g)
+            return out
+
+        def yaml_freqs(y):
+            return np.array([[b["frequency"] for b in p_["band"]] for p_ in y["phonon"]], float)
+
+        def yaml_eigvecs(y):
+            ev = []
+            for p_ in y["phonon"]:
+                cols = []
+                for b in p_["band"]:
+                    v = np.array(b["eigenvector"], float)  # (natom, 3, 2)
+                    cols.append((v[..., 0] + 1j * v[..., 1]).ravel())
+                ev.append(np.array(cols).T)
+            return np.array(ev)
+
+        def cmp_projectors(got_e, want_e, fr, step, fn):
+            worst = 0.0
+            for iq in range(len(fr)):
+                for g in groups_of(fr[iq]):
+                    pg = got_e[iq][:, g] @ got_e[iq][:, g].conj().T
+                    pw = want_e[iq][:, g] @ want_e[iq][:, g].conj().T
+                    worst = max(worst, float(np.abs(pg - pw).max()))
+            obs["eigenvector_projectors_compared"] = obs.get("eigenvector_projectors_compared", 0) + 1
+            if worst > 1e-9:
+                bad("output_mismatch", "%s: eigenvectors span different (degenerate-)subspaces than the library's, projector difference %.3e" % (fn, worst), step=step, file=fn, quantity="eigenvectors", **feat)
+
+        rm("mesh.yaml")
+        if cli("phonopy-load", pre + ["--mesh", "3", "3", "3", "--gv"], "gv") is not None and os.path.exists(os.path.join(tmp, "mesh.yaml")):
+            tw = twin()
+            tw.run_mesh([3, 3, 3], with_group_velocities=True)
+            md = tw.get_mesh_dict()
+            y = load_yaml("mesh.yaml")
+            txt = open(os.path.join(tmp, "mesh.yaml")).read()
+            fr = yaml_freqs(y)
+            cmp_arr("frequencies", fr, md["frequencies"], decimals_in(txt, "frequency:"), "gv", "mesh.yaml")
+            try:
+                gv = np.array([[b["group_velocity"] for b in p_["band"]] for p_ in y["phonon"]], float)
+            except KeyError:
+                gv = None
+                bad("output_missing", "mesh.yaml written with --gv has no group_velocity entries", step="gv", file="mesh.yaml", **feat)
+            if gv is not None and gv.shape == np.array(md["group_velocities"]).shape:
+                want = np.array(md["group_velocities"], float).copy()
+                for iq in range(len(fr)):
+                    for g in groups_of(np.array(md["frequencies"])[iq]):
+                        if len(g) > 1:  # only the set of values per Cartesian direction is defined inside a degenerate group
+                            gv[iq][g] = np.sort(gv[iq][g], axis=0)
+                            want[iq][g] = np.sort(want[iq][g], axis=0)
+                cmp_arr("group_velocities", gv, want, decimals_in(txt, "group_velocity:"), "gv", "mesh.yaml")
+            elif gv is not None:
+                bad("output_shape", "mesh.yaml group velocities have shape %s, library %s" % (gv.shape, np.array(md["group_velocities"]).shape), step="gv", file="mesh.yaml", **feat)
+            n_files += 1
+            keys.append("wf|%s|gv" % c["crystal"]["name"])
+        rm("mesh.yaml")
+        if cli("phonopy-load", pre + ["--mesh", "2", "2", "2", "--eigvecs"], "mesh-eigvecs") is not None and os.path.exists(os.path.join(tmp, "mesh.yaml")):
+            tw = twin()
+            tw.run_mesh([2, 2, 2], with_eigenvectors=True)
+            md = tw.get_mesh_dict()
+            y = load_yaml("mesh.yaml")
+            fr = yaml_freqs(y)
+            if fr.shape == np.array(md["frequencies"]).shape:
+                cmp_arr("frequencies", fr, md["frequencies"], 10, "mesh-eigvecs", "mesh.yaml")
+                cmp_projectors(yaml_eigvecs(y), np.array(md["eigenvectors"]), np.array(md["frequencies"]), "mesh-eigvecs", "mesh.yaml")
+            else:
+                bad("output_shape", "mesh.yaml (--eigvecs) has %s q-points x bands, library %s" % (fr.shape, np.array(md["frequencies"]).shape), step="mesh-eigvecs", file="mesh.yaml", **feat)
+            n_files += 1
+            keys.append("wf|%s|mesh-eigvecs" % c["crystal"]["name"])
+        rm("thermal_displacements.yaml")
+        if cli("phonopy-load", pre + ["--mesh", "3", "3", "3", "--td", "--tmin", "0", "--tmax", "300", "--tstep", "100", "--fmin", "0.1"], "tdisp") is not None and os.path.exists(os.path.join(tmp, "thermal_displacements.yaml")):
+            tw = twin()
+            tw.run_mesh([3, 3, 3], with_eigenvectors=True, is_mesh_symmetry=False)
+            tw.run_thermal_displacements(t_min=0, t_max=300, t_step=100, freq_min=0.1)
+            td = tw.get_thermal_displacements_dict()
+            y = load_yaml("thermal_displacements.yaml")
+            cmp_arr("temperatures", [t_["temperature"] for t_ in y["thermal_displacements"]], td["temperatures"], 7, "tdisp", "thermal_displacements.yaml")
+            cmp_arr("thermal_displacements", np.array([t_["displacements"] for t_ in y["thermal_displacements"]], float).reshape(len(y["thermal_displacements"]), -1),
+                    np.array(td["thermal_displacements"]).reshape(len(td["temperatures"]), -1), 7, "tdisp", "thermal_displacements.yaml")
+            n_files += 1
+            keys.append("wf|%s|tdisp" % c["crystal"]["name"])
+        rm("thermal_displacement_matrices.yaml")
+        if cli("phonopy-load", pre + ["--mesh", "3", "3", "3", "--tdm", "--tmin", "0", "--tmax", "300", "--tstep", "150", "--fmin", "0.1"], "tdispmat") is not None and os.path.exists(os.path.join(tmp, "thermal_displacement_matrices.yaml")):
+            tw = twin()
+            tw.run_mesh([3, 3, 3], with_eigenvectors=True, is_mesh_symmetry=False)
+            tw.run_thermal_displacement_matrices(t_min=0, t_max=300, t_step=150, freq_min=0.1)
+            td = tw.get_thermal_displacement_matrices_dict()
+            y = load_yaml("thermal_displacement_matrices.yaml")
+            m = np.array(td["thermal_displacement_matrices"])
+            want = np.stack([m[..., 0, 0], m[..., 1, 1], m[..., 2, 2], m[..., 1, 2], m[..., 0, 2], m[..., 0, 1]], axis=-1).real
+            cmp_arr("thermal_displacement_matrices", np.array([t_["displacement_matrices"] for t_ in y["thermal_displacement_matrices"]], float), want, 5, "tdispmat", "thermal_displacement_matrices.yaml")
+            n_files += 1
+            keys.append("wf|%s|tdispmat" % c["crystal"]["name"])
+        rm("mesh.hdf5")
+        if cli("phonopy-load", pre + ["--mesh", "3", "3", "3", "--hdf5"], "mesh-hdf5") is not None and os.path.exists(os.path.join(tmp, "mesh.hdf5")):
+            import h5py
+
+            tw = twin()
+            tw.run_mesh([3, 3, 3])
+            md = tw.get_mesh_dict()
+            with h5py.File(os.path.join(tmp, "mesh.hdf5"), "r") as h:
+                cmp_arr("frequency", h["frequency"][:], md["frequencies"], 10, "mesh-hdf5", "mesh.hdf5")
+                cmp_arr("qpoint", h["qpoint"][:], md["qpoints"], 12, "mesh-hdf5", "mesh.hdf5")
+                if list(h["weight"][:]) != list(np.array(md["weights"])):
+                    bad("output_mismatch", "mesh.hdf5 weights differ from the library", step="mesh-hdf5", file="mesh.hdf5", quantity="weights", **feat)
+            n_files += 1
+            keys.append("wf|%s|mesh-hdf5" % c["crystal"]["name"])
+        rm("band.yaml")
+        if cli("phonopy-load", pre + ["--band", "0.11 0.05 0.02 0.37 0.21 0.13 0.45 0.4 0.05", "--band-points", "9", "--band-connection"], "band-connection") is not None and os.path.exists(os.path.join(tmp, "band.yaml")):
+            from phonopy.phonon.band_structure import get_band_qpoints
+
+            tw = twin()
+            bands = get_band_qpoints([np.array([[0.11, 0.05, 0.02], [0.37, 0.21, 0.13], [0.45, 0.4, 0.05]])], npoints=9)
+            tw.run_band_structure(bands, is_band_connection=True)
+            bd = tw.get_band_structure_dict()
+            tw2 = twin()
+            tw2.run_band_structure(bands)
+            plain = np.vstack(tw2.get_band_structure_dict()["frequencies"])
+            y = load_yaml("band.yaml")
+            fr = yaml_freqs(y)
+            want = np.vstack(bd["frequencies"])
+            if fr.shape == want.shape:
+                # the per-q set of frequencies is only re-ordered (reference: the path without band connection)
+                cmp_arr("frequencies (sorted per q, band connection)", np.sort(fr, axis=1), np.sort(plain, axis=1), 10, "band-connection", "band.yaml")
+                gaps = np.diff(np.sort(plain, axis=1), axis=1)
+                if gaps.size and gaps.min() > 1e-3:  # order itself is comparable only when no crossing/degeneracy makes it round-off dependent
+                    cmp_arr("frequencies (band connection order)", fr, want, 10, "band-connection", "band.yaml")
+                    obs["band_connection_order_compared"] = obs.get("band_connection_order_compared", 0) + 1
+            else:
+                bad("output_shape", "band.yaml (band connection) has shape %s, library %s" % (fr.shape, want.shape), step="band-connection", file="band.yaml", **feat)
+            n_files += 1
+            keys.append("wf|%s|band-connection" % c["crystal"]["name"])
+        rm("band.yaml")
+        if cli("phonopy-load", pre + ["--band", "0.1 0.2 0.3 1/2 0.1 0", "--band-points", "4", "--eigvecs"], "band-eigvecs") is not None and os.path.exists(os.path.join(tmp, "band.yaml")):
+            from phonopy.phonon.band_structure import get_band_qpoints
+
+            tw = twin()
+            bands = get_band_qpoints([np.array([[0.1, 0.2, 0.3], [0.5, 0.1, 0]])], npoints=4)
+            tw.run_band_structure(bands, with_eigenvectors=True)
+            bd = tw.get_band_structure_dict()
+            y = load_yaml("band.yaml")
+            fr = yaml_freqs(y)
+            if fr.shape == np.vstack(bd["frequencies"]).shape:
+                cmp_arr("frequencies", fr, np.vstack(bd["frequencies"]), 10, "band-eigvecs", "band.yaml")
+                cmp_projectors(yaml_eigvecs(y), np.vstack(bd["eigenvectors"]), np.vstack(bd["frequencies"]), "band-eigvecs", "band.yaml")
+            n_files += 1
+            keys.append("wf|%s|band-eigvecs" % c["crystal"]["name"])
+        rm("qpoints.yaml")
+        if cli("phonopy-load", pre + ["--qpoints", "0.1 0.2 0.3 1/2 0 0 0 0 0", "--writedm"], "writedm") is not None and os.path.exists(os.path.join(tmp, "qpoints.yaml")):
+            tw = twin()
+            tw.run_qpoints([[0.1, 0.2, 0.3], [0.5, 0, 0], [0, 0, 0]], with_dynamical_matrices=True)
+            qd = tw.get_qpoints_dict()
+            y = load_yaml("qpoints.yaml")
+            try:
+                dmy = np.array([p_["dynamical_matrix"] for p_ in y["phonon"]], float)
+                dmy = dmy[..., 0::2] + 1j * dmy[..., 1::2]
+            except KeyError:
+                dmy = None
+                bad("output_missing", "qpoints.yaml written with --writedm has no dynamical_matrix", step="writedm", file="qpoints.yaml", **feat)
+            if dmy is not None:
+                want = np.array(qd["dynamical_matrices"])
+                cmp_arr("dynamical_matrix (real)", dmy.real, want.real, 10, "writedm", "qpoints.yaml")
+                cmp_arr("dynamical_matrix (imag)", dmy.imag, want.imag, 10, "writedm", "qpoints.yaml")
+            n_files += 1
+            keys.append("wf|%s|writedm" % c["crystal"]["name"])
+        rm("total_dos.dat")
+        if cli("phonopy-load", pre + ["--mesh", "3", "3", "3", "--dos", "--fmin", "-1", "--fmax", "12", "--fpitch", "0.25", "--nowritemesh"], "dos-tetrahedron") is not None and os.path.exists(os.path.join(tmp, "total_dos.dat")):
+            tw = twin()
+            tw.run_mesh([3, 3, 3])
+            tw.run_total_dos(freq_min=-1, freq_max=12, freq_pitch=0.25, use_tetrahedron_method=True)
+            dd = tw.get_total_dos_dict()
+            arr = np.loadtxt(os.path.join(tmp, "total_dos.dat"))
+            cmp_arr("total_dos (tetrahedron)", arr[:, 1], dd["total_dos"], 10, "dos-tetrahedron", "total_dos.dat")
+            n_files += 1
+            keys.append("wf|%s|dos-tetrahedron" % c["crystal"]["name"])
         # ---- option route vs configuration-file route: identical output files
         for label, opts, conf in (("mesh", ["--mesh", "2", "3", "2", "--gc"], "MESH = 2 3 2\nGAMMA_CENTER = .TRUE."),
                                   ("tprop", ["--mesh", "2", "2", "2", "-t", "--tmax", "200", "--tstep", "50"], "MESH = 2 2 2\nTPROP = .TRUE.\nTMAX = 200\nTSTEP = 50"),
-                                  ("band", ["--band", "0 0 0 0 1/2 0", "--band-points", "5"], "BAND = 0 0 0 0 1/2 0\nBAND_POINTS = 5")):
+                                  ("band", ["--band", "0 0 0 0 1/2 0", "--band-points", "5"], "BAND = 0 0 0 0 1/2 0\nBAND_POINTS = 5"),
+                                  ("gv", ["--mesh", "2", "2", "2", "--gv"], "MESH = 2 2 2\nGROUP_VELOCITY = .TRUE."),
+                                  ("nomeshsym", ["--mesh", "2", "2", "3", "--nomeshsym"], "MESH = 2 2 3\nMESH_SYMMETRY = .FALSE."),
+                                  ("dos", ["--mesh", "2", "2", "2", "--dos", "--sigma", "0.2", "--fpitch", "0.5"], "MESH = 2 2 2\nDOS = .TRUE.\nSIGMA = 0.2\nFPITCH = 0.5"),
+                                  ("tdisp", ["--mesh", "2", "2", "2", "--td", "--tmax", "100", "--tstep", "50", "--fmin", "0.2"], "MESH = 2 2 2\nTDISP = .TRUE.\nTMAX = 100\nTSTEP = 50\nFMIN = 0.2"),
+                                  ("qpoints", ["--qpoints", "0.1 0.2 0.3", "--writedm"], "QPOINTS = 0.1 0.2 0.3\nWRITEDM = .TRUE.")):
             outs = {}
             for route in ("option", "conf"):
-                for fn in ("mesh.yaml", "thermal_properties.yaml", "band.yaml"):
+                for fn in ROUTE_FILES:
                     if os.path.exists(os.path.join(tmp, fn)):
                         os.remove(os.path.join(tmp, fn))
                 if route == "option":
@@ -478,7 +679,7 @@ def run_case(c):
                     p = cli("phonopy-load", ["--fc-calc", "traditional", "--config", "r.conf"], "route-conf:" + label)
                 if p is None:
                     break
-                outs[route] = {fn: open(os.path.join(tmp, fn)).read() for fn in ("mesh.yaml", "thermal_properties.yaml", "band.yaml") if os.path.exists(os.path.join(tmp, fn))}
+                outs[route] = {fn: open(os.path.join(tmp, fn)).read() for fn in ROUTE_FILES if os.path.exists(os.path.join(tmp, fn))}
             if len(outs) == 2:
                 n_files += 1
                 keys.append("wf|%s|route|%s" % (c["crystal"]["name"], label))
